@@ -3851,7 +3851,12 @@ class BoutMesh(Mesh):
 
             # Create poloidal coordinate which goes from 0 to 2pi in the core region
             theta = deepcopy(y)
-            myg = self.user_options.y_boundary_guards
+            # number of guard cells at each target; there are none if the grid has no
+            # targets (e.g. core-only grids)
+            if self.ny != self.ny_noguards:
+                myg = self.user_options.y_boundary_guards
+            else:
+                myg = 0
             for t in [theta.centre, theta.xlow, theta.ylow]:
                 # Make zero of theta half a point before the start of the core region
                 t -= theta.ylow[0, numpy.newaxis, jyseps1_1 + myg + 1, numpy.newaxis]
